@@ -332,6 +332,11 @@ centralised_messages = {
         "description": "Occurs when the output of a component in a HAVING clause "
         "is not boolean as required.",
     },
+    "1-1-2-4": {
+        "message": "At op {op}: Grouping component {id_name} not found in the aggregated Dataset.",
+        "description": "Raised when a HAVING clause is evaluated and a grouping component "
+        "is not present in the Dataset being aggregated.",
+    },
     # Analytic errors
     "1-1-3-2": {
         "message": "At op {op}: Only Identifiers are allowed for partitioning, "
@@ -799,6 +804,11 @@ centralised_messages = {
         "message": "At op {op}: {msg} in regexp: {regexp},  in position {pos}.",
         "description": "Raised when a string pattern or regex fails at a specific position.",
     },
+    "1-1-18-9": {
+        "message": "At op {op}: Invalid parameter position, only positions 1, 2 and 3 are allowed.",
+        "description": "Raised when a string operator parameter is checked at a position "
+        "outside the supported range.",
+    },
     "1-1-18-10": {
         "message": "At op {op}: Cannot have a Dataset as parameter",
         "description": "Occurs when a Dataset is incorrectly used as a parameter in a "
@@ -955,6 +965,11 @@ centralised_messages = {
         "identifier sets are neither equal nor in a subset relationship.",
     },
     # AST Helpers
+    "1-3-1": {
+        "message": "Alias symbol cannot have the name of a component symbol: {alias}.",
+        "description": "Raised when the alias given to a Dataset in a join clause matches "
+        "the name of one of its components.",
+    },
     "1-3-1-1": {
         "message": "At op {op}: User defined {option} declared as {type_1}, found {type_2}.",
         "description": "Occurs when a user-defined option has a type mismatch in its declaration.",
